@@ -28,7 +28,10 @@ FORMATS = ["%Y-%m-%d", "%d/%m/%Y", "%m.%d.%Y %H:%M", "%Y%m%d%H%M%S", "%d %B %Y",
            "%A %d %B %Y %H:%M", "%B", "%d.%m.%Y %H:%M:%S.%f", "%m/%d/%y %I:%M %p", "%Y-%m", "%a, %d %b %Y", "%d %b", "%p %I:%M %d/%m/%Y",
            "%H:%M", "%y%m%d", "%A", "%Y %B", "%d.%m.%Y %H:%M:%S,%f", "%Y-%m-%d %H.%M.%S.%f", "%Y%m%d%H%M%S%f", "%H:%M:%S:%f %d/%m/%Y",
            "%d %Y %m", "%Y-%d-%m %H:%M", "%b-%d-%Y", "%A %d. %B %Y", "%I%p %d/%m/%Y", "%m %d %y %H %M %S",
-           "%j", "%j %H:%M", "%H:%M %j", "%j %I:%M %p"]
+           "%j", "%j %H:%M", "%H:%M %j", "%j %I:%M %p",
+           # partial formats that carry a fraction of a second (completion must keep it), adjacent fields
+           "%B %Y %H:%M:%S.%f", "%Y %H:%M:%S.%f", "%m/%Y %S.%f", "%d %B %H:%M:%S.%f", "%d %B %Y %I:%M%p", "%Hh%M %d/%m/%Y", "%d%b%Y",
+           "%I%p %d %B %Y"]
 N_EN = {"quick": 30000, "thorough": 400000}
 
 
@@ -172,7 +175,10 @@ def check_loc(ctx, lang, key, w):
     if key in vocab.MONTHS:
         mi = vocab.MONTHS.index(key) + 1
         cases = [("%d %B %Y", "17 %s 2013" % w, datetime(2013, mi, 17)),
-                 ("%Y/%B/%d %H:%M", "2013/%s/17 10:45" % w, datetime(2013, mi, 17, 10, 45))]
+                 ("%Y/%B/%d %H:%M", "2013/%s/17 10:45" % w, datetime(2013, mi, 17, 10, 45)),
+                 # two fields of the format side by side (clock time glued to AM/PM); two-digit year first
+                 ("%d %B %Y %I:%M%p", "17 %s 2013 06:08PM" % w, datetime(2013, mi, 17, 18, 8)),
+                 ("%y %B %d", "31 %s 25" % w, datetime(2031, mi, 25))]
     else:
         wi = vocab.WEEKDAYS.index(key)
         d = datetime(2013, 5, 13 + wi)  # 2013-05-13 is a Monday
